@@ -1408,11 +1408,11 @@ fn main() {
                 _ => quick,
             };
             let env_n = |k: &str, d: u64| std::env::var(k).ok().and_then(|s| s.parse().ok()).unwrap_or(d);
-            let progs = env_n("C07_PROGS", pick(15_000, 40_000, 400_000));
-            let matches = env_n("C07_MATCH", pick(5_000, 20_000, 150_000));
-            let unifies = env_n("C07_UNIFY", pick(20_000, 60_000, 600_000));
-            let lits = env_n("C07_LIT", pick(6_000, 20_000, 150_000));
-            let recs = env_n("C07_REC", pick(6_000, 20_000, 150_000));
+            let progs = env_n("C07_PROGS", pick(40_000, 120_000, 400_000));
+            let matches = env_n("C07_MATCH", pick(20_000, 40_000, 150_000));
+            let unifies = env_n("C07_UNIFY", pick(60_000, 120_000, 600_000));
+            let lits = env_n("C07_LIT", pick(20_000, 40_000, 150_000));
+            let recs = env_n("C07_REC", pick(20_000, 40_000, 150_000));
             let jobs = env_n("C07_JOBS", 4);
             let mut rep = Report::default();
             run_phase("corpus", seed, corpus_files().len() as u64, 64, 1, &mut rep);
